@@ -7,9 +7,37 @@ ZC = "iroh_dns_server::store::ZoneCache"
 SPS = "iroh_dns_server::store::signed_packets::SignedPacketStore"
 
 
+def invalidation_unconditional(F, rep, group):
+    """every path of ZoneStore::insert that continues after an *acknowledged update* (the
+    upsert's bool is true) reaches the cache invalidation: a condition in front of it leaves
+    a zone of the losing packet in the cache and DNS answers keep coming from it"""
+    ins = body_of(F, rep, ZS + "::insert")
+    up = find_calls(ins, SPS + "::upsert")
+    inv = find_calls(ins, ZC + "::remove")
+    inst = find_calls(ins, ZC + "::insert")
+    if not up:
+        rep.missing(group, "store.upsert call in ZoneStore::insert")
+        return
+    bts = []
+    for b_ in sorted(ins.reachable(0)):
+        t_ = ins.blocks[b_]["t"]
+        if t_["k"] == "switch" and op_local(t_["d"]) is not None and str(ins.locals[op_local(t_["d"])]) == "bool":
+            cs_ = copy_sources(ins, op_local(t_["d"]))
+            if cs_ and all(x[0] == "call" and x[1] == SPS + "::upsert" for x in cs_):
+                su_, fa_ = switch_edges(ins, b_, 1)
+                bts.append((b_, su_))
+    rep.floor(group, "tests of the upsert result (updated?) in ZoneStore::insert", len(bts), 1)
+    invb = {b for b, t in inv} | {b for b, t in inst}
+    rets = {b for b in ins.reachable(0) if ins.blocks[b]["t"]["k"] == "return"}
+    for b_, su_ in bts:
+        leak = [tg for _, tg in su_ if rets & ins.reachable(tg, removed_blocks=invb)]
+        rep.ob(group, not leak, site(ins, b_), "after an acknowledged update every path passes through the cache invalidation for the key (no condition can skip it)", skey(F, ins, "invalidate-unconditional"))
+
+
 def check(F, rep):
     rep.clause("atomic set {store row for a key, cache entry for that key}: the resolve path's fill (read store, then write the cache with what was read) and the publish path's invalidation (write store, then touch the cache) must exclude each other - one cache guard spanning the store read and the cache write - or the publish path must install the new packet so that the cache's newer-check rejects a late stale fill")
     rep.clause("a publish invalidates every layer a query can be answered from: each cache field that ZoneCache::resolve reads is cleared for the key by ZoneCache::remove on every path")
+    rep.clause("after an acknowledged update (upsert returned true) every path of ZoneStore::insert passes through the invalidation - no condition can skip it")
     rep.undecided("LRU eviction and DHT TTL behaviour as values")
     r = body_of(F, rep, ZS + "::resolve")
     ins = body_of(F, rep, ZS + "::insert")
@@ -38,6 +66,7 @@ def check(F, rep):
     if inv and up:
         uts, _ = call_result_tests(ins, up[0][0], family=None)
         rep.ob("invalidate", len(inv) == 1 and ins.dominates(up[0][0], inv[0][0]), site(ins, inv[0][0]), "an acknowledged update invalidates the cache after the store was written", skey(F, ins, "invalidate-after-upsert"))
+    invalidation_unconditional(F, rep, "invalidate")
     if not (sg and fill and up):
         return
     du = defuse(r)
